@@ -25,6 +25,11 @@ CREATE_VARIANTS = [
     'update t set a = 1 from (select 1) as s where 1 = 1', 'select * from a.b.c.d', 'select ?', 'select @v', 'select f(a from b)',
     'insert into t (a, b, c) values (1, 2)', 'insert into t (a, b) values (1, 2), (3)', 'insert into t (a) values (1, 2)', 'insert into t (a, b) values (1)',
     'insert into t (a, b) select 1', 'update t set a = 1, a = 2', 'select * from t1 right join t2 on t1.a = t2.a', 'select * from a.b.c', 'select a from t limit 1, 2',
+    'create table t (c int, d text)', 'create table t (z float)', 'create table abc (q int, r int, s int)', 'create table abc (s int)',
+    # set operations whose last branch carries ORDER BY / LIMIT and a shape the translation rejects
+    'select a from t union select b from c.s.u order by b limit 3', 'select a from t union select cast(b as foo) from u order by b',
+    'select 1 union select count(a, b) from t limit 2 offset 1', 'select a from t intersect select b from c.s.u order by b', 'select a from t except select b from c.s.u limit 1',
+    'select a from t union all select b from u order by b limit 3', 'select a from t union select b from u union select cast(c as foo) from v order by 1',
     'select sum(distinct a)', 'select count(distinct a, b)', 'select interval 1 day', "select interval '1' day", 'select a -> 1',
 ]
 
@@ -106,6 +111,21 @@ class CHECK(Check):
                         reported.add('history')
                         res.violation(f'answer-depends-on-renderer-history|{meth}|fallback-{"on" if fb else "off"}',
                                       f'{text!r}: {meth}(with_failback={fb}) for {name} on a renderer used before gives {str(got)[:150]!r}; a new renderer gives {str(fresh[(meth, fb)])[:150]!r}')
+        # "the SQLAlchemy rendering" is the rendering of THIS tree: a rendered CREATE TABLE defines exactly the columns the tree lists
+        from mindsdb_sql.parser import ast as A
+        if isinstance(tree, A.CreateTable) and getattr(tree, 'columns', None):
+            want_cols = [str(c.name).lower() for c in tree.columns]
+            for name in ('mysql', 'postgresql', 'sqlite'):
+                got = outcome(self.renders_b[name], 'get_string', False)
+                if got[0] != 'value':
+                    continue
+                back = parsing.outcome(got[1], 'mindsdb')
+                if back.kind == 'ok' and isinstance(back.value, A.CreateTable) and back.value.columns:
+                    have = [str(c.name).lower() for c in back.value.columns]
+                    res.count('create_table_column_checks')
+                    if have != want_cols and 'columns' not in reported:
+                        reported.add('columns')
+                        res.violation('rendering-is-not-of-this-tree|CreateTable.columns', f'{text!r}: rendered for {name} as {got[1]!r}: columns {have}, the tree has {want_cols}')
         for name in NAMES:
             r = self.renders[name]
             for meth in ('get_string', 'get_exec_params'):
